@@ -107,6 +107,8 @@ def gen_plan(tape, cfg):
             gk = tape.choice(["minimize", "maximize", "minmax", "maxmin"], "goal.kind")
             nt = 1 if gk in ("minimize", "maximize") else tape.rint(1, 3, "goal.nterms")
             ops.append({"op": "goal", "kind": gk, "signed": bool(tape.draw(2, "goal.signed")),
+                        "gid": tape.choice([None, None, "o1", "o2"], "goal.id"),
+                        "id_first": bool(tape.draw(2, "goal.id_first")),
                         "t": [bp.gen_term(tape, bp.BV(w), 1, ctx) for _ in range(nt)]})
         elif k in ("is_sat", "is_valid", "is_unsat"):
             ops.append({"op": k, "f": bp.gen_term(tape, bp.BOOL, 2, ctx)})
@@ -531,11 +533,21 @@ def _script_half(plan, ops, symbols, probe, trace):
         elif k == "goal":
             ts = [bp.build(t, env) for t in o["t"]]
             txt_terms = " ".join(bp.to_smtlib(t) for t in o["t"])
+            opts = [(":signed", o["signed"])]
+            topts = [" :signed"] if o["signed"] else []
+            if o.get("gid"):
+                # objective options in either order: (minimize t :id o1 :signed) / (... :signed :id o1)
+                if o.get("id_first"):
+                    opts = [(":id", o["gid"])] + opts
+                    topts = [" :id %s" % o["gid"]] + topts
+                else:
+                    opts = opts + [(":id", o["gid"])]
+                    topts = topts + [" :id %s" % o["gid"]]
             if o["kind"] in ("minimize", "maximize"):
-                direct.add(GOAL_CMD[o["kind"]], [ts[0], [(":signed", o["signed"])]])
+                direct.add(GOAL_CMD[o["kind"]], [ts[0], opts])
             else:
-                direct.add(GOAL_CMD[o["kind"]], [ts, [(":signed", o["signed"])]])
-            lines.append("(%s %s%s)" % (o["kind"], txt_terms, " :signed" if o["signed"] else ""))
+                direct.add(GOAL_CMD[o["kind"]], [ts, opts])
+            lines.append("(%s %s%s)" % (o["kind"], txt_terms, "".join(topts)))
             model.add_goal(i)
     text = "\n".join(lines) + "\n"
     parsed = api("parser.get_script", lambda: SmtLibParser(environment=env).get_script(StringIO(text)))
